@@ -54,6 +54,9 @@ def run_witness(binpath, w):
             f = os.path.join(tmpdir, w.get("filename", "w.gdn"))
             with open(f, "w", encoding="utf-8") as fh:
                 fh.write(w["input"])
+            for name, text in w.get("extra_files", {}).items():
+                with open(os.path.join(tmpdir, name), "w", encoding="utf-8") as fh:
+                    fh.write(text)
             stdin = None
             cmd = {"check": [binpath, "check", f],
                    "check-json": [binpath, "check", "--json", f],
